@@ -406,7 +406,7 @@ func (sc *Scope) index(b, i V) V {
 			return V{sel(sel(sc.heapTerm(hn, hs), app("sarr", b.T)), app("+", app("soff", b.T), i.T)), es, u.Elem()}
 		case *types.Map:
 			ks, vs := w.sortOf(u.Key()), w.sortOf(u.Elem())
-			_, _, vn, vso := mapHeaps(ks, vs)
+			_, _, vn, vso := mapHeaps(w, u)
 			i = sc.coerceNil(i, V{S: ks})
 			return V{sel(sel(sc.heapTerm(vn, vso), b.T), i.T), vs, u.Elem()}
 		}
@@ -440,8 +440,8 @@ func (sc *Scope) call(x ECall) V {
 		}
 		if v.GT != nil {
 			if mt, ok := v.GT.Underlying().(*types.Map); ok {
-				ks, vs := w.sortOf(mt.Key()), w.sortOf(mt.Elem())
-				dn, dso, _, _ := mapHeaps(ks, vs)
+				ks := w.sortOf(mt.Key())
+				dn, dso, _, _ := mapHeaps(w, mt)
 				vc.declCard(ks)
 				return V{app("card_"+sortName(ks), sel(sc.heapTerm(dn, dso), v.T)), SInt, nil}
 			}
@@ -466,8 +466,8 @@ func (sc *Scope) call(x ECall) V {
 		}
 		if m.GT != nil {
 			if mt, ok := m.GT.Underlying().(*types.Map); ok {
-				ks, vs := w.sortOf(mt.Key()), w.sortOf(mt.Elem())
-				dn, dso, _, _ := mapHeaps(ks, vs)
+				ks := w.sortOf(mt.Key())
+				dn, dso, _, _ := mapHeaps(w, mt)
 				k = sc.coerceNil(k, V{S: ks})
 				return V{and(not(eq(m.T, "0")), sel(sel(sc.heapTerm(dn, dso), m.T), k.T)), SBool, nil}
 			}
@@ -480,8 +480,8 @@ func (sc *Scope) call(x ECall) V {
 		if !ok {
 			specFail("dom of non-map")
 		}
-		ks, vs := w.sortOf(mt.Key()), w.sortOf(mt.Elem())
-		dn, dso, _, _ := mapHeaps(ks, vs)
+		ks := w.sortOf(mt.Key())
+		dn, dso, _, _ := mapHeaps(w, mt)
 		return V{sel(sc.heapTerm(dn, dso), m.T), arraySort(ks, SBool), nil}
 	case "vals":
 		need(1)
@@ -491,7 +491,7 @@ func (sc *Scope) call(x ECall) V {
 			specFail("vals of non-map")
 		}
 		ks, vs := w.sortOf(mt.Key()), w.sortOf(mt.Elem())
-		_, _, vn, vso := mapHeaps(ks, vs)
+		_, _, vn, vso := mapHeaps(w, mt)
 		return V{sel(sc.heapTerm(vn, vso), m.T), arraySort(ks, vs), nil}
 	case "emptyset":
 		need(1)
@@ -522,6 +522,14 @@ func (sc *Scope) call(x ECall) V {
 		need(1)
 		v := arg(0)
 		return V{and(app(">", v.T, "0"), not(sel(sc.old.heapTerm("alive", aliveSort), v.T)), sel(sc.heapTerm("alive", aliveSort), v.T)), SBool, nil}
+	case "hashable":
+		need(1)
+		v := arg(0)
+		return V{or(eq(v.T, "nilI"), app("comparableT", app("typ", v.T))), SBool, nil}
+	case "allocated":
+		need(1)
+		v := arg(0)
+		return V{and(app(">", v.T, "0"), sel(sc.heapTerm("alive", aliveSort), v.T)), SBool, nil}
 	case "ctxErr":
 		need(1)
 		w.declare("ctxErr", "(declare-fun ctxErr (Iface) Iface)\n(assert (forall ((c Iface)) (! (not (= (ctxErr c) nilI)) :pattern ((ctxErr c)))))")
@@ -595,10 +603,11 @@ func (sc *Scope) specCall(f *SpecFunc, x ECall) V {
 	for i, p := range f.Params {
 		n.vars[p] = args[i]
 	}
-	n.bound = sc.bound
+	n.bound = nil // spec functions are closed: parameters shadow any enclosing quantified variable
 	if sc.old != nil {
 		o := *sc.old
 		o.vars = n.vars
+		o.bound = nil
 		o.old = &o
 		n.old = &o
 	}
